@@ -303,6 +303,7 @@ func finVerify(st *State, fs *finState, f []string) Result {
 	cts := finCertTs(f[4], ts)
 	var oracle []string
 	sound, soundPrimary := false, false
+	sameKeys := false // some evaluated key vector selects exactly the keys that signed
 	hasSig := 0
 	var sigN string = "0"
 	if cs != nil {
@@ -328,6 +329,17 @@ func finVerify(st *State, fs *finState, f []string) Result {
 			}
 			if !inRange {
 				continue
+			}
+			if signed != nil && len(signed.keys) == len(idx) {
+				eq := true
+				for j, i := range idx {
+					if *publics[i] != signed.keys[j] {
+						eq = false
+					}
+				}
+				if eq {
+					sameKeys = true
+				}
 			}
 			probe := &crypto.CosiSignature{Signature: cs.Signature, Mask: mask}
 			valid := probe.FullVerify(publics, 1, hash) == nil
@@ -363,7 +375,7 @@ func finVerify(st *State, fs *finState, f []string) Result {
 		strings.Join(oracle, " "))
 	res.LeanIn = strings.TrimRight(res.LeanIn, " ")
 
-	altered := signed != nil && (mut != 0 || !signed.honest || mask != signed.mask || hash != signed.hash)
+	altered := signed != nil && (mut != 0 || !signed.honest || !sameKeys || hash != signed.hash)
 	switch {
 	case out != fresh:
 		res.PropKey = "C09:cached-differs-from-fresh"
